@@ -274,3 +274,69 @@ def run(chk, prog):
                     else:
                         chk.ok(RULE, "%s: %s(..., %s) >= 0 on every path" % (fn.name, c.callee, L.text()))
     chk.floor(RULE, 6, n)
+
+
+ADDRULE = "C17-ADDWRAP"
+USER_GETTERS = ("janet_getinteger", "janet_getnat", "janet_optinteger", "janet_optnat", "janet_gethalfrange", "janet_getargindex")
+
+
+def run_addwrap(chk, prog):
+    """Bounds tests of the form `offset + len > size` are only as good as the addition: both operands come straight from
+    the caller (any int32), the sum is computed in 32 bits, wraps negative and the test passes.  Every int32 sum of two
+    non-constant values of which one is caller-supplied must be unable to wrap: one operand known negative on that
+    path (count + at under at < 0), or the sum computed in a wider type."""
+    chk.rule(ADDRULE, "no 32-bit sum of a caller-supplied integer and another variable unless one operand is known negative or an explicit INT32_MAX guard dominates it")
+    n = 0
+    for tu in prog.tus.values():
+        for fn in tu.funcs.values():
+            uv = set()
+            for x in fn.nodes:
+                tgt = rhs = None
+                if x.k == "vardecl" and x.kids:
+                    tgt, rhs = x.name, strip_casts(x.kids[0])
+                elif x.k == "asg" and x.op == "=" and is_ref(x.kids[0]):
+                    tgt, rhs = x.kids[0].name, strip_casts(x.kids[1])
+                if tgt and rhs is not None and rhs.k == "call" and rhs.callee in USER_GETTERS:
+                    uv.add(tgt)
+            if not uv:
+                continue
+            sums = [x for x in fn.nodes if x.k == "bin" and x.op == "+" and (x.t or "") in ("int", "int32_t")
+                    and strip_casts(x.kids[0]).v is None and strip_casts(x.kids[1]).v is None
+                    and set(y.name for y in x.walk() if y.k == "ref") & uv
+                    and not (x.parent is not None and x.parent.k == "sub")]
+            if not sums:
+                continue
+            chk.analysed(fn)
+            IN, T = flow.condition_facts(fn)
+            done = set()
+            for x, S in flow.states_at(fn, IN, T):
+                for sm in sums:
+                    if sm.id in done or not any(y is sm for y in x.walk()):
+                        continue
+                    done.add(sm.id)
+                    n += 1
+                    chk.instance(ADDRULE)
+                    ops = [strip_casts(k).text() for k in sm.kids]
+                    ok = bool(S)
+                    for ps in S:
+                        neg = False
+                        for (op, l, r, _, ln, rn) in ps:
+                            if rn is None:
+                                continue
+                            if rn.v is not None and l in ops and ((op == "<" and rn.v <= 0) or (op == "<=" and rn.v < 0)):
+                                neg = True
+                            # an explicit no-overflow guard:  a <= INT32_MAX - b  (in any arrangement)
+                            q = inequality(ln, op, rn)
+                            if q is not None:
+                                coefs, const, strict = q
+                                if set(coefs) == set(ops) and all(coefs[o] == 1 for o in ops) and -const <= 2 ** 31 - 1 + (1 if strict else 0):
+                                    neg = True
+                        if not neg:
+                            ok = False
+                    if ok:
+                        chk.ok(ADDRULE, "%s: %s with one operand negative on every path" % (fn.name, sm.text()))
+                    else:
+                        chk.violation(ADDRULE, fn.tu.name, fn.name, sm.text().replace(" ", ""), sm.loc,
+                                      "`%s` adds a caller-supplied integer to another variable in 32-bit arithmetic with neither operand "
+                                      "known negative: for large arguments the sum wraps and the bounds test it feeds passes" % sm.text())
+    chk.floor(ADDRULE, 2, n)
